@@ -146,3 +146,45 @@ def _codec(spec, model):
 def _format(spec, model):
     bad = [r for r in roundtrips(spec['fmt'], 0) if not r['ok']]
     return {'confirmed': bool(bad), 'observed': [(b['name'], b['detail']) for b in bad[:3]]}
+
+
+def file_name_cases(fmt):
+    """export to the path the caller names and import from that same path: file names with the usual extension, with another
+    extension, without any, with dots inside, given as str and as pathlib.Path"""
+    import pathlib
+    import pygaps
+    import pygaps.parsing as pgp
+    pygaps.logger.disabled = True
+    to_, from_ = {'json': (pgp.isotherm_to_json, pgp.isotherm_from_json), 'csv': (pgp.isotherm_to_csv, pgp.isotherm_from_csv),
+                  'excel': (pgp.isotherm_to_xl, pgp.isotherm_from_xl)}[fmt]
+    ext = {'json': 'json', 'csv': 'csv', 'excel': 'xls'}[fmt]
+    iso = pygaps.PointIsotherm(pressure=[0.1, 0.2, 0.4], loading=[1.0, 1.5, 2.0], material='pgv_fn', adsorbate='nitrogen', temperature=77.355)
+    tmp = tempfile.mkdtemp(prefix='pgv-fn-')
+    try:
+        for label, name in (('usual_extension', f'iso.{ext}'), ('other_extension', 'iso.dat'), ('no_extension', 'iso_export'), ('dots_inside', 'run1.5bar')):
+            for kind, conv in (('str', str), ('Path', pathlib.Path)):
+                sub = os.path.join(tmp, f"{label}_{kind}")
+                os.makedirs(sub)
+                path = conv(os.path.join(sub, name))
+                probs = []
+                try:
+                    to_(iso, path)
+                    listing = sorted(os.listdir(sub))
+                    if listing != [name]:
+                        probs.append(f"asked to write {name!r}, the folder holds {listing}")
+                    back = from_(path)
+                    if not back == iso:
+                        probs.append('the isotherm read from the path is not the one written')
+                except Exception as exc:
+                    probs.append(f"{type(exc).__name__}: {exc}"[:140])
+                yield {'name': f"{fmt}_file_name|{label}|{kind}", 'ok': not probs, 'detail': '; '.join(probs)}
+    finally:
+        shutil.rmtree(tmp, ignore_errors=True)
+
+
+@replayer('c06.file_name')
+def _file_name(spec, model):
+    for r in file_name_cases(spec['fmt']):
+        if r['name'] == spec['name']:
+            return {'confirmed': not r['ok'], 'observed': r['detail'], 'expected': 'the file is written at, and read back from, the path that was given'}
+    return {'confirmed': False, 'error': 'case not found'}
